@@ -11,11 +11,11 @@ def expectedC11 : List (String × String) := [
   ("file:comparison.py", "c46d05a1308c92ce"),
   ("file:compat.py", "2a259e16acd200bc"),
   ("file:config.py", "142bde514c82c29d"),
-  ("file:transform/basics.py", "ef1ded632cafe787"),
+  ("file:transform/basics.py", "093d71f68c43a00a"),
   ("file:transform/dedup.py", "bd5f47cbc6d0c73d"),
   ("file:transform/joins.py", "bb9e0069e4d5e3a6"),
   ("file:transform/maps.py", "e13eb9e40cc9aa94"),
-  ("file:transform/reductions.py", "edf72039afd74a8e"),
+  ("file:transform/reductions.py", "bbf60b10e10110b8"),
   ("file:transform/reshape.py", "b1f08e12c952f763"),
   ("file:transform/setops.py", "6dff26ed32585dcd"),
   ("file:transform/sorts.py", "137f7e8a70e043fe"),
